@@ -137,12 +137,16 @@ def run(ck):
               "a complete response parsed while no request is waiting leaves the parser in its Done state (the next response is parsed against it)")
 
     # ---------------- R2 (premise): the generic reset reaches *every* step, whatever the progress of the abandoned message ----------------
-    pr_ = lib.single(prog, PB + "reset")
-    sr = [e for e in pr_.calls(lambda e: (e.get("callee") or "") == H + "Private::Step::reset")]
+    pr0 = lib.single(prog, PB + "reset")
+    # the loop over the steps may sit in ParserBase::reset itself or in a private helper of the parser it calls
+    preg = lib.region(prog, pr0, within=lambda g_: g_.cls == pr0.cls and g_.cls)
+    sr = [e for g_ in preg for e in g_.calls(lambda e: (e.get("callee") or "") == H + "Private::Step::reset")]
+    pr_ = pr0
     if not sr:
         ck.ob("C04-R2", "ParserBase::reset/covers-every-step", False, pr_.loc, pr_,
               "ParserBase::reset does not reach the steps at all: whatever a step remembers about the message in progress survives the reset")
     for e in sr:
+        pr_ = e.func
         lp = cfg.innermost_loop(pr_, e.block)
         ok = False
         detail = "Step::reset is not called in a loop over the steps"
